@@ -42,6 +42,11 @@ CHECKS = {
          "DESIGN.md §7 C10",
          "Trusts go/types' implementation of the specification's terminating-statement and label rules. For a body that declares a label twice only the duplicate diagnostics are compared (which statement the label binds to is then undefined).",
          "property-based testing: grammar-based generation, differential against go/types diagnostics"),
+ "C05": ("exploration",
+         "Small-scope exhaustive enumeration of a closed universe: 70 typed types plus the 7 untyped kinds; ALL ordered pairs for the public predicates AssignableTo, AssignableConv, ConvertibleTo, ComparableTo (both operand orders; symmetry checked as its own law) and ALL (type x 48 boundary constants) points, against types.AssignableTo/ConvertibleTo and go/types on batched one-statement programs; then the same question through 13 constructs (var init, assignment, call argument, return, slice/array/map/struct literal elements, send, case, ==, conversion) on the whole (construct x V x T) and (construct x constant x T) grid (107k one-statement programs; thorough tier complete, quick tier one residue class mod 7 chosen by the seed). The ~18k grid points at which the tree deviates are listed exactly, point by point, in known-finding files; any other point is a violation.",
+         "DESIGN.md §7 C05",
+         "go/types is the oracle. Exhaustive only for the stated universe and constant list (chosen to contain every boundary of every integer and float kind).",
+         "exhaustive small-scope enumeration (finite grid) against go/types; known deviations pinned point by point"),
  "C19": ("exploration",
          "Model-based state-machine testing (rapid): random Set/Delete/At/Len/Keys/Iterate/String histories over a pool of generated type keys containing structurally identical but pointer-distinct rebuilds, aliases, permuted/flattened interfaces, permuted unions, renamed type parameters, separately created instantiations, deliberate hash-collision twins and same-named foreign types; after every step every observable is compared with an association list over types.Identical, and Identical=>equal-hash is checked on all pool pairs. Sampling, not proof: right level because the property quantifies over unbounded histories and type shapes.",
          "DESIGN.md §7 C19",
